@@ -484,7 +484,10 @@ def search(rep, br, tier, seed):
     intro = IC.introspect()
     brs, sobs = branch_mnemonics(intro)
     sub = C.Report(ID, "thorough", seed)
-    explore_with(sub, rng, intro, brs, sobs)
+    try:
+        explore_with(sub, rng, intro, brs, sobs)
+    except RuntimeError as ex:   # the judge itself no longer evaluates: reported as no-failing-input-found
+        rep.notes.append("search could not run: " + str(ex)[-400:])
     rep.violations += sub.violations
     rep.add_eval(sub.evaluations)
     rep.notes.append(f"search: {sub.evaluations} further evaluations, {len(sub.violations)} violations")
